@@ -98,7 +98,7 @@ PROPS["C09"] = dict(
     trusted_base=_CTL_TB, assumptions=_CTL_ASSUME,
     level_text="Kernel-checked (Props/C09.lean) over Core.step/sendReq for every 32-bit counter value: wire sequence = low 24 bits = transaction key, so the response "
                "carrying the request's sequence number always matches; requests < 2^24 apart have distinct sequence numbers; expiry retransmits the identical message "
-               "while count < N, then abandons; at most 1+N transmissions; matching response releases; unmatched responses and stale expiries change nothing. Tie: S-ctl. answered_then_stale_timeout — when the response overtakes the queued timeout of a timer that has fired, the request is retired and the stale timeout does nothing (no retransmission after the answer); tx_timeout_keeps_rx; rx_timeout_keeps_tx / rx_timeouts_keep_tx — no run of retention expiries, whatever keys they carry, retries or abandons a request or sends anything (external predicate on the implementation: an expiry concerns the kind of transaction its timer was started for). S-tmoburst runs the REAL timers: 100-300 unanswered requests whose timers all expire while the loop is held in a data-plane call; each is transmitted exactly 1+N times and then abandoned.",
+               "while count < N, then abandons; at most 1+N transmissions; matching response releases; unmatched responses and stale expiries change nothing. Tie: S-ctl. answered_then_stale_timeout — when the response overtakes the queued timeout of a timer that has fired, the request is retired and the stale timeout does nothing (no retransmission after the answer); tx_timeout_keeps_rx; rx_timeout_keeps_tx / rx_timeouts_keep_tx — no run of retention expiries, whatever keys they carry, retries or abandons a request or sends anything (external predicate on the implementation: an expiry concerns the kind of transaction its timer was started for). outstanding_untouched / outstanding_after_any_history — nothing but its own response and its own timer expiry touches an outstanding request (requests received, whatever they do, other requests' responses and expiries, retention expiries leave message and retry count as they were). S-tmoburst runs the REAL timers: 100-300 unanswered requests whose timers all expire while the loop is held in a data-plane call; each is transmitted exactly 1+N times and then abandoned.",
     level_note="Trusted: Lean kernel; model of pfcp.go:273-283,153-175 and transaction.go:57-109 (checked against the code each run); timers are injected events.",
 )
 
